@@ -369,6 +369,85 @@ def run_rl(ctx, cid, P):
                 trial("len_field", wire[:3] + bytes([ln >> 8, ln & 255]) +
                       body, honest)
 
+    # --- CBC records padded far beyond the minimum (legal from TLS 1.0 on:
+    # up to 255 bytes; tlslite never sends them but must verify them) ---
+    if su.cipher_kind == "cbc" and ver > (3, 0):
+        sl = rig.sl
+        want = {"k": 0}
+
+        def long_pad(data):
+            bl = sl.blockSize
+            base = bl - 1 - (len(data) % bl)
+            kmax = (255 - base) // bl
+            k = kmax if want["k"] == "max" else min(kmax, want["k"])
+            pl = base + k * bl
+            data += bytearray([pl] * (pl + 1))
+            return data
+        sl.addPadding = long_pad
+        try:
+            plan = [(0, "max"), (5, "max"), (37, "max"),
+                    (rng.randrange(1, 60), rng.randrange(1, 15)),
+                    (rng.randrange(1, 60), rng.randrange(8, 15))]
+            for n, k in plan:
+                if ctx.expired():
+                    break
+                want["k"] = k
+                rig.sl._writeState = snap(saved_w)
+                pt = mon.keystream("%s/lp%d" % (cid, n), n)
+                wire = rig.protect(23, pt)
+                honest = [(wire, 23, pt)]
+                v = trial("longpad_identity", wire, honest)
+                if v != "accept":
+                    continue      # already reported by judge()
+                ctx.count("longpad_accept")
+                L = len(wire)
+                stride = (5 if ctx.quick else 1)
+                for i, mask in flips(L, stride * 8 + 1):
+                    b = bytearray(wire)
+                    b[i] ^= mask
+                    trial("longpad_flip:" + region(i, L), bytes(b), honest)
+                # the last byte (padding length) and the MAC area
+                for i in (L - 1, L - 2, L - 256 if L > 261 else 5):
+                    b = bytearray(wire)
+                    b[i] ^= 1
+                    trial("longpad_flip:" + region(i, L), bytes(b), honest)
+            # where the MAC sits relative to the hash-block-aligned scan
+            # window depends on (length, padding): sweep the lengths with
+            # maximal padding, two early flips each
+            want["k"] = "max"
+            for n in range(0, ctx.pick(70, 200)):
+                if ctx.expired():
+                    break
+                rig.sl._writeState = snap(saved_w)
+                pt = mon.keystream("%s/lq%d" % (cid, n), n)
+                wire = rig.protect(23, pt)
+                honest = [(wire, 23, pt)]
+                if trial("longpad_identity", wire, honest) != "accept":
+                    continue
+                for i in (5, 5 + sl.blockSize, 5 + 2 * sl.blockSize):
+                    if i < len(wire):
+                        b = bytearray(wire)
+                        b[i] ^= 0x10
+                        trial("longpad_sweep_flip", bytes(b), honest)
+        finally:
+            del sl.addPadding
+
+    # --- records nobody protected: plaintext spliced into the stream ---
+    rig.sl._writeState = snap(saved_w)
+    first_pt = mon.keystream("%s/pl" % cid, 12)
+    first = rig.protect(23, first_pt)
+    hv = bytes(ver if ver < (3, 4) else (3, 3))
+    for nm, ct, body in (("alert_close_notify", 21, b"\x01\x00"),
+                         ("alert_fatal", 21, b"\x02\x28"),
+                         ("alert_1byte", 21, b"\x01"),
+                         ("appdata", 23, b"abc"),
+                         ("handshake", 22, b"\x00\x00\x00\x00"),
+                         ("empty_appdata", 23, b"")):
+        rec = bytes([ct]) + hv + len(body).to_bytes(2, "big") + body
+        # in place of the first record of the epoch, and after one record
+        trial("plaintext_first:" + nm, rec, [(first, 23, first_pt)])
+        trial("plaintext_later:" + nm, first + rec, [(first, 23, first_pt)])
+
     # --- sequences ---
     rig.sl._writeState = snap(saved_w)
     hon = []
